@@ -7,7 +7,7 @@ Import ListNotations.
 Open Scope Z_scope.
 
 (* shape of a trace: which kind of statement on which table, and where the transaction boundaries are *)
-Inductive sh := SW (kind t : Z) | SC | SR | SA.        (* kind: 0 INSERT, 1 UPDATE, 2 DELETE *)
+Inductive sh := SW (kind t : Z) | SC | SR | SA | SF.        (* kind: 0 INSERT, 1 UPDATE, 2 DELETE *)
 
 Definition sh_of_write (w : write) : sh :=
   match w with
@@ -18,7 +18,7 @@ Definition sh_of_write (w : write) : sh :=
   end.
 
 Definition sh_of (e : event) : sh :=
-  match e with Write w => sh_of_write w | Commit => SC | Rollback => SR | Ack => SA end.
+  match e with Write w => sh_of_write w | Commit => SC | Rollback => SR | Ack => SA | CommitFail => SF end.
 
 (* a ROLLBACK with nothing pending (end of a read-only transaction, e.g. the refresh SELECT after a commit,
    or a handler that raised before touching the database) has no effect on the durable state: dropped *)
@@ -29,10 +29,11 @@ Fixpoint norm (dirty : bool) (l : list sh) : list sh :=
   | SC :: tl => SC :: norm false tl
   | SR :: tl => if dirty then SR :: norm false tl else norm false tl
   | SA :: tl => SA :: norm dirty tl
+  | SF :: tl => SF :: norm dirty tl
   end.
 
 Definition sh_code (x : sh) : Z :=
-  match x with SW k t => 100 + 10 * t * 10 + k | SC => 1 | SR => 2 | SA => 3 end.
+  match x with SW k t => 100 + 10 * t * 10 + k | SC => 1 | SR => 2 | SA => 3 | SF => 4 end.
 Definition sh_eqb (a b : sh) : bool := sh_code a =? sh_code b.
 Definition is_w (x : sh) : bool := match x with SW _ _ => true | _ => false end.
 
@@ -73,7 +74,11 @@ Inductive tcase :=
 | CState (pre : store) (o : op) (snaps : list (nat * store))         (* (events before the cut, rows a fresh engine finds) *)
 | CWork (pre : store) (ops : list op) (lo hi : nat) (found : store)  (* killed workload: operations of acknowledged requests, plus those of
                                                                          the (batch) request in flight; rows found after restart *)
-| CClass (ot : Z) (tables : list Z).                                 (* SQLAlchemy mapper tables of the class storing ot *)
+| CClass (ot : Z) (tables : list Z)                                  (* SQLAlchemy mapper tables of the class storing ot *)
+| CFail (pre : store) (o : op) (observed : list sh) (success : bool) (found : store)
+                                                                     (* the operation run while its COMMIT is refused ('database is locked'):
+                                                                        statements seen, answer given, rows found after restart *)
+| CConn (journal synchronous locking autocommit : Z).                (* durability settings of the live connection the engine uses *)
 
 Definition zs_eqb (a b : list Z) : bool :=
   Nat.eqb (length a) (length b) && forallb (fun x => existsb (Z.eqb x) b) a && forallb (fun x => existsb (Z.eqb x) a) b.
@@ -88,4 +93,10 @@ Definition check_tcase (c : tcase) : bool :=
   | CWork pre ops lo hi found =>
       existsb (fun j => store_eqb (posts (firstn j ops) pre) found) (seq lo (S (hi - lo)))
   | CClass ot tables => zs_eqb (class_tables ot) tables
+  | CFail pre o observed success found =>
+      let m := map sh_of (trace_of_failed_commit o pre) in
+      shape_eq (S (length observed + length m)) (norm false m) (norm false observed)
+      && Bool.eqb success (failed_commit_acks_success o pre)
+      && store_eqb (recover (trace_of_failed_commit o pre) pre) found
+  | CConn j sy l a => settings_ok j sy l a
   end.
